@@ -1084,7 +1084,7 @@ Tokenizer_really_parse_entity(Tokenizer *self)
     } else {
         valid = ALPHANUM;
     }
-    text = calloc(MAX_ENTITY_SIZE, sizeof(char));
+    text = calloc(MAX_ENTITY_SIZE + 1, sizeof(char));
     if (!text) {
         PyErr_NoMemory();
         return -1;
